@@ -68,7 +68,12 @@ GenericFails(ev) ==
     IF ~sm.ok \/ ~Resolvable(sm.comp, ev.mono) THEN {"MACHINERY_generator_gave_unresolvable_value"}
     ELSE IF ev.out # "ret" THEN {"raised_" \o ev.out}
     ELSE LET tol == IF ev.mono THEN FAdd(Micro(10), FMulInt(Nano(500), sm.sugars)) ELSE FAdd(Micro(2000), FMulInt(Micro(400), sm.sugars)) IN
-         IF FWithin(ev.res, SemMass(sm, ev.mono), tol) THEN {} ELSE {"generic_form_mass"}
+         (IF FWithin(ev.res, SemMass(sm, ev.mono), tol) THEN {} ELSE {"generic_form_mass"})
+         (* the same value on a labelled peptide, where the mass is taken through the composition: it weighs the same *)
+         \cup (IF ev.routeOut = "skipped" THEN {}
+               ELSE IF ev.routeOut # "ret" THEN {"rejected_on_the_composition_route_" \o ev.routeOut}
+               ELSE IF ~FWithin(ev.route, ev.res, FAdd(Micro(10), FMulInt(Nano(600), ev.mult + sm.sugars)))
+               THEN {"weighs_differently_on_the_composition_route"} ELSE {})
 
 Fails(ev) == CASE ev.k = "spell" -> SpellFails(ev)
                [] ev.k = "sugar" -> SugarRowFails(ev)
